@@ -173,6 +173,11 @@ def units(tier, variant):
     chain = [i for i, op in enumerate(ops_d) if (op[0] == 'pickup' and op[2] == 'radius') or op == ('update',) or (op[0] == 'set_radius' and op[1] == 1)]
     for i in chain:
         out.append(dict(kind='edits', lens='doublet', first=i, depth=5, restrict=chain, variant=variant))
+    # pickup + solve interplay: a pickup target in front of a solved surface, source edited, update (length <= 5 over 5 operations)
+    both = [i for i, op in enumerate(ops_d) if op in (('pickup', 1, 'radius', 2, -1.0, 0.5), ('update',)) or (op[0] == 'solve')
+            or (op[0] == 'set_radius' and op[1] == 1)]
+    for i in both:
+        out.append(dict(kind='edits', lens='doublet', first=i, depth=5, restrict=both, variant=variant))
     for name in initial_lenses(variant):
         ops = edit_alphabet(name, variant)
         for i in range(len(ops)):
